@@ -96,6 +96,16 @@ def problems():
             out.append("attribute access / modification was accepted")
         except AttributeError:
             pass
+    # ... also by the routes that bypass the class's own __setattr__ (State.__init__ itself stores through object.__setattr__)
+    for label, act in (("object.__setattr__(MISSING, 'marker', 1)", lambda: object.__setattr__(MISSING, "marker", 1)),
+                       ("vars(MISSING)", lambda: vars(MISSING)),
+                       ("MISSING.__dict__", lambda: MISSING.__dict__),
+                       ("weakref.ref(MISSING)", lambda: __import__("weakref").ref(MISSING))):
+        try:
+            act()
+            out.append(f"{label} succeeded: MISSING has storage of its own, an attribute can be attached to the singleton")
+        except (AttributeError, TypeError):
+            pass
     return out
 
 
